@@ -76,3 +76,40 @@ func init() {
 	verifFuncs["VerifC18Para"] = VerifC18Para
 	verifFuncs["VerifC18Typed"] = VerifC18Typed
 }
+
+// VerifC18Race: many goroutines parse independent inputs (fresh field names each) through the control-file entry
+// points at once; run under the race detector when a non-interference obligation fails.
+func VerifC18Race(job string) int {
+	done := make(chan int, 16)
+	for g := 0; g < 16; g++ {
+		go func(g int) {
+			bad := 0
+			for i := 0; i < 400; i++ {
+				name := "F" + string(rune('a'+g)) + string(rune('a'+i%26)) + string(rune('a'+(i/26)%26))
+				doc := name + ": v\nBinary: a, b\nVersion: 1-1\nArchitecture: any\nSource: s\nFormat: 1.0\nMaintainer: M <m@x>\nFiles:\n aa 1 s.debian.tar.xz\n"
+				r, err := NewParagraphReader(strings.NewReader(doc), nil)
+				if err != nil {
+					bad++
+					continue
+				}
+				if _, err := r.All(); err != nil {
+					bad++
+				}
+				if _, err := ParseDsc(bufio.NewReader(strings.NewReader(doc)), ""); err != nil {
+					bad++
+				}
+			}
+			done <- bad
+		}(g)
+	}
+	total := 0
+	for g := 0; g < 16; g++ {
+		total += <-done
+	}
+	if total != 0 {
+		return 1
+	}
+	return 0
+}
+
+func init() { verifFuncs["VerifC18Race"] = VerifC18Race }
